@@ -193,31 +193,51 @@ Inductive op :=
 | OCycle (blk : block) (prims : list (list Z)).
 
 Inductive obs :=
-| ORep (pairs : list (Z * Z)) (cnt : Z)   (* the state reported after an edit; the broker's connection counter
-                                           (internal, compared with the model only, never judged) *)
+| ORep (pairs : list (Z * Z)) (cnt : Z) (coup : Z)
+      (* after a request: what a client knows = the last GROUPTRIGGER message; the broker's connection counter
+         and the last TRIGCOUPLING message (0: none yet) are compared with the model only, never judged *)
 | OSec (recs : list (list record))   (* per channel, the secondary records of the cycle *)
 | OCrash.                            (* the process died in this step *)
 
-Record mstate := { m_b : broker; m_sts : list stream }.
+(* m_view = the last GROUPTRIGGER client update, m_coup = the last TRIGCOUPLING client update (0: none) *)
+Record mstate := { m_b : broker; m_sts : list stream; m_view : list (Z * Z); m_coup : Z }.
 
 Definition init_state (n : Z) : mstate :=
-  {| m_b := new_broker n; m_sts := map (fun _ => empty_stream) (zrange 0 n) |}.
+  {| m_b := new_broker n; m_sts := map (fun _ => empty_stream) (zrange 0 n);
+     m_view := [] (* Start broadcasts the fresh broker's state *); m_coup := 0 |}.
 
 Record config := { cf_kind : kind; cf_n : Z; cf_npre : Z; cf_nsamp : Z }.
 
 Section Run.
   Variable add : broker -> Z -> Z -> broker.
   Variable keeps_of : config -> list stream -> list Z.
+  Variable couple_reports : bool.   (* CoupleErrToFB / CoupleFBToErr send GROUPTRIGGER (after the fix) *)
+
+  (* the RPC layer (rpc_server.go): changeGroupTriggerCoupling, StopTriggerCoupling, CoupleErrToFB/CoupleFBToErr.
+     Result: the broker, the GROUPTRIGGER update sent (if any), the TRIGCOUPLING update sent (if any). *)
+  Definition rpc_edit (k : kind) (b : broker) (e : edit) : broker * option (list (Z * Z)) * option Z :=
+    match e with
+    | EAdd c => let b' := change_group add true c b in (b', Some (report_pairs b'), None)
+    | EDel c => let b' := change_group add false c b in (b', Some (report_pairs b'), None)
+    | EStop => let b1 := stop_coupling b in (set_coupling add k b1 1, Some (report_pairs b1), Some 1)
+    | ECouple st => let b' := set_coupling add k b st in
+                    (b', if couple_reports then Some (report_pairs b') else None, Some st)
+    end.
 
   Definition step_with (cf : config) (m : mstate) (o : op) : res mstate * obs :=
     match o with
     | OEdit e =>
-        let b' := apply_edit add (cf_kind cf) (m_b m) e in
-        (Ok {| m_b := b'; m_sts := m_sts m |}, ORep (report_pairs b') (b_cnt b'))
+        match rpc_edit (cf_kind cf) (m_b m) e with
+        | (b', gt, tc) =>
+            let view := match gt with Some v => v | None => m_view m end in
+            let coup := match tc with Some c => c | None => m_coup m end in
+            (Ok {| m_b := b'; m_sts := m_sts m; m_view := view; m_coup := coup |}, ORep view (b_cnt b') coup)
+        end
     | OCycle blk prims =>
         match cycle_with (keeps_of cf (m_sts m)) (cf_npre cf) (cf_nsamp cf) (m_b m) (m_sts m) blk prims with
         | Panic => (Panic, OCrash)
-        | Ok (sts', recs) => (Ok {| m_b := m_b m; m_sts := sts' |}, OSec recs)
+        | Ok (sts', recs) =>
+            (Ok {| m_b := m_b m; m_sts := sts'; m_view := m_view m; m_coup := m_coup m |}, OSec recs)
         end
     end.
 
@@ -235,9 +255,9 @@ End Run.
 
 Definition keeps_fixed (cf : config) (sts : list stream) : list Z := map (fun _ => n_to_keep (cf_nsamp cf)) sts.
 
-Definition step := step_with add_connection keeps_fixed.
+Definition step := step_with add_connection keeps_fixed true.
 Definition run (cf : config) (ops : list op) : list obs :=
-  run_with add_connection keeps_fixed cf (init_state (cf_n cf)) ops.
+  run_with add_connection keeps_fixed true cf (init_state (cf_n cf)) ops.
 
 (* state after a sequence of edits only *)
 Definition run_edits (k : kind) (b : broker) (es : list edit) : broker :=
